@@ -80,6 +80,8 @@ pub enum Entry {
     Json,
     /// directory contains at least one non-empty *.yaml file
     YamlDir,
+    /// part 3: the library's result for one command line (expected output bytes, parsed values, verdicts)
+    P3(crate::part3::Ask),
 }
 
 fn wdl_version(s: &str) -> Option<wow_wdl::version::WdlVersion> {
@@ -367,6 +369,7 @@ fn eval_inner(entry: &Entry, path: &Path) -> Result<Value, String> {
             let v: Value = serde_json::from_slice(&d).map_err(|e| es(&e))?;
             Ok(json!({"array_len": v.as_array().map(|a| a.len())}))
         }
+        Entry::P3(a) => crate::part3::eval_ask(a, path),
         Entry::YamlDir => {
             let mut n = 0;
             for e in std::fs::read_dir(path).map_err(|e| es(&e))? {
